@@ -25,6 +25,140 @@ Theorem unknown_session_rejected_untouched :
 Proof. exact @unknown_session_rejected_untouched_proved. Qed.
 Print Assumptions unknown_session_rejected_untouched.
 
+(* the user state machine is invoked exactly at OApplied outcomes (with the
+   entry's command; the reported result is what it returned); every other
+   outcome leaves its state untouched; session-managed entries never reach an
+   internal assertion (panic) *)
+Theorem sm_touched_only_when_applied :
+  forall (S result : Type) (sm_update : S -> bytes -> S * result) (st : @state S result) e (st' : @state S result) o,
+  step sm_update st e = (st', o) ->
+  (st_sm st' = st_sm st /\ (forall r, o <> OApplied r) /\ (o = OPanic -> classify e = KBadUnmanaged)) \/
+  (exists r, o = OApplied r /\ sm_update (st_sm st) (e_cmd e) = (st_sm st', r) /\
+             (classify e = KUpdate \/ classify e = KNoopSession)).
+Proof. exact @sm_touched_only_when_applied_proved. Qed.
+Print Assumptions sm_touched_only_when_applied.
+
+(* AT MOST ONCE, over ALL entry streams (any number of clients, more clients than
+   the LRU capacity, every duplicate placement, special and boundary ids, any
+   capacity, any user state machine): the invocations of the user state machine
+   caused by session-managed proposals, tagged (client id, registration epoch of
+   that client id, series id), contain no duplicate. [sm_calls_tagged] lists one
+   tag per OApplied outcome of a KUpdate entry ([tagged_calls_complete]). *)
+Theorem at_most_once :
+  forall (S result : Type) (sm_update : S -> bytes -> S * result) cap (s0 : S) es,
+  NoDup (sm_calls_tagged sm_update cap s0 es).
+Proof. exact @at_most_once_proved. Qed.
+Print Assumptions at_most_once.
+
+Theorem tagged_calls_complete :
+  forall (S result : Type) (sm_update : S -> bytes -> S * result) es (st : @state S result) ep,
+  length (tagged_calls sm_update ep st es) =
+  length (filter (fun p => match snd p, classify (fst p) with OApplied _, KUpdate => true | _, _ => false end)
+                 (combine es (snd (run sm_update st es)))).
+Proof. exact @tagged_calls_complete_proved. Qed.
+Print Assumptions tagged_calls_complete.
+
+(* a retry (same client, same series id, not yet acknowledged) of a proposal that
+   was applied with result r is answered with r from the session cache, without
+   invoking the user state machine — whatever other entries (es) were applied in
+   between, as long as the session stayed registered *)
+Theorem retry_returns_cached :
+  forall (S result : Type) (sm_update : S -> bytes -> S * result) (st : @state S result) e r st1 es e',
+  inv st -> classify e = KUpdate -> step sm_update st e = (st1, OApplied r) ->
+  present_along sm_update (e_client e) st1 es ->
+  Forall (fun x => classify x = KUpdate -> e_client x = e_client e -> e_responded x < e_series e) es ->
+  classify e' = KUpdate -> e_client e' = e_client e -> e_series e' = e_series e ->
+  e_responded e' < e_series e ->
+  exists st', step sm_update (run_state sm_update st1 es) e' = (st', OCached r) /\
+              st_sm st' = st_sm (run_state sm_update st1 es).
+Proof. exact @retry_returns_cached_proved. Qed.
+Print Assumptions retry_returns_cached.
+
+(* [inv] (the hypothesis above and below) holds in every reachable state *)
+Theorem inv_reachable :
+  forall (S result : Type) (sm_update : S -> bytes -> S * result) cap (s0 : S) es,
+  inv (run_state sm_update (init_state cap s0) es).
+Proof. exact @inv_reachable_proved. Qed.
+Print Assumptions inv_reachable.
+
+(* every proposal of a registered client records its RespondedTo *)
+Theorem acknowledgement_recorded :
+  forall (S result : Type) (sm_update : S -> bytes -> S * result) (st : @state S result) e,
+  inv st -> classify e = KUpdate -> lookup (e_client e) st <> None ->
+  acked (e_client e) (e_responded e) (fst (step sm_update st e)).
+Proof. exact @acknowledgement_recorded_proved. Qed.
+Print Assumptions acknowledgement_recorded.
+
+(* once an acknowledgement >= k is recorded, a late duplicate with series id <= k
+   is ignored (no result, user state machine untouched), whatever was applied in
+   between, as long as the session stayed registered *)
+Theorem acknowledged_duplicate_ignored :
+  forall (S result : Type) (sm_update : S -> bytes -> S * result) (st : @state S result) c k es e,
+  inv st -> acked c k st -> present_along sm_update c st es ->
+  classify e = KUpdate -> e_client e = c -> e_series e <= k ->
+  exists st', step sm_update (run_state sm_update st es) e = (st', OIgnored) /\
+              st_sm st' = st_sm (run_state sm_update st es).
+Proof. exact @acknowledged_duplicate_ignored_proved. Qed.
+Print Assumptions acknowledged_duplicate_ignored.
+
+(* eviction: registering a new client in a full table drops exactly the least
+   recently used session; its later proposals are rejected and change nothing *)
+Theorem evicted_session_rejected :
+  forall (S result : Type) (sm_update : S -> bytes -> S * result) (st : @state S result) e l v,
+  inv st -> t_list (st_tab st) = l ++ [v] ->
+  N.of_nat (length (l ++ [v])) = t_cap (st_tab st) ->
+  classify e = KRegister -> lookup (e_client e) st = None ->
+  exists st1, step sm_update st e = (st1, ORegistered (e_client e)) /\
+    t_list (st_tab st1) = new_session (e_client e) :: l /\
+    lookup (s_client v) st1 = None /\
+    forall e', classify e' = KUpdate -> e_client e' = s_client v -> step sm_update st1 e' = (st1, ORejected).
+Proof. exact @evicted_session_rejected_proved. Qed.
+Print Assumptions evicted_session_rejected.
+
+(* the table invariants in every reachable state: one session per client id,
+   never more sessions than the capacity *)
+Theorem table_wf_reachable :
+  forall (S result : Type) (sm_update : S -> bytes -> S * result) cap (s0 : S) es,
+  let t := st_tab (run_state sm_update (init_state cap s0) es) in
+  NoDup (ids (t_list t)) /\ N.of_nat (length (t_list t)) <= t_cap t /\ t_cap t = cap.
+Proof. exact @table_wf_reachable_proved. Qed.
+Print Assumptions table_wf_reachable.
+
+(* lrusession.save walks the table with Get (which reorders) and still leaves the
+   LRU order exactly as it was; it writes the sessions least recently used first *)
+Theorem save_preserves_order :
+  forall (result : Type) (t : @table result),
+  NoDup (ids (t_list t)) -> save t = Some ((t_cap t, rev (t_list t)), t).
+Proof. exact @save_preserves_order_proved. Qed.
+Print Assumptions save_preserves_order.
+
+(* load (save t) = t: same sessions, same LRU order, same capacity *)
+Theorem load_save_id :
+  forall (result : Type) (t : @table result) sv t',
+  NoDup (ids (t_list t)) -> N.of_nat (length (t_list t)) <= t_cap t -> 0 < t_cap t ->
+  save t = Some (sv, t') -> t' = t /\ load sv = Some t.
+Proof. exact @load_save_id_proved. Qed.
+Print Assumptions load_save_id.
+
+(* snapshot at any cut point, restart from it, apply the rest of the log: same
+   results per entry, same final table (LRU order, hence eviction victims) and
+   same user state as the uninterrupted run. Assumes only the user contract
+   sm_recover (sm_save s) = Some s. *)
+Theorem snapshot_cut_equiv_sessions :
+  forall (S result : Type) (sm_update : S -> bytes -> S * result)
+         (sm_save : S -> bytes) (sm_recover : bytes -> option S),
+  (forall s, sm_recover (sm_save s) = Some s) ->
+  forall cap (s0 : S) es1 es2, 0 < cap ->
+  let st1 := run_state sm_update (init_state cap s0) es1 in
+  exists sn, snapshot sm_save st1 = Some (sn, st1) /\
+  exists st1', restore sm_recover sn = Some st1' /\
+               run sm_update st1' es2 = run sm_update st1 es2 /\
+               run sm_update (init_state cap s0) (es1 ++ es2) =
+                 (fst (run sm_update st1' es2),
+                  snd (run sm_update (init_state cap s0) es1) ++ snd (run sm_update st1' es2)).
+Proof. exact @snapshot_cut_equiv_sessions_proved. Qed.
+Print Assumptions snapshot_cut_equiv_sessions.
+
 (* non-vacuity: a concrete stream reaches a state with cached responses above a
    non-zero watermark, and an unknown client is rejected there *)
 Example c05_witness :
@@ -35,3 +169,60 @@ Example c05_witness :
     = [(6, 0, []); (5, 1, [3; 2])]
   /\ snd (acc_step st (mkEntry 9 1 0 [7])) = ORejected.
 Proof. vm_compute. split; reflexivity. Qed.
+
+(* non-vacuity of retry_returns_cached / acknowledged_duplicate_ignored /
+   evicted_session_rejected: concrete data meeting their hypotheses, with other
+   clients' traffic in between *)
+Example c05_retry_witness :
+  let reg c := mkEntry c series_id_for_register 0 [] in
+  let st := run_state acc_update (acc_init 2) [reg 5] in
+  let e := mkEntry 5 1 0 [1] in
+  let es := [reg 6; mkEntry 6 1 0 [9]; mkEntry 5 2 0 [3]; mkEntry 5 1 0 [1]] in
+  let st1 := fst (acc_step st e) in
+  classify e = KUpdate /\ (exists r, snd (acc_step st e) = OApplied r) /\
+  present_along acc_update 5 st1 es /\
+  Forall (fun x => classify x = KUpdate -> e_client x = 5 -> e_responded x < 1) es /\
+  snd (acc_step (run_state acc_update st1 es) e) = OCached (1801, [1]) /\
+  snd (acc_step st e) = OApplied (1801, [1]).
+Proof.
+  cbv zeta. split; [reflexivity|]. split; [eexists; vm_compute; reflexivity|].
+  split; [cbn [present_along]; repeat split; vm_compute; discriminate|].
+  split; [repeat constructor; vm_compute; intros; reflexivity|].
+  split; vm_compute; reflexivity.
+Qed.
+
+Example c05_ack_evict_witness :
+  let reg c := mkEntry c series_id_for_register 0 [] in
+  let st := run_state acc_update (acc_init 2) [reg 5; mkEntry 5 1 0 [1]; mkEntry 5 2 1 [2]] in
+  acked 5 1 st /\ present_along acc_update 5 st [reg 6; mkEntry 6 1 0 [4]] /\
+  snd (acc_step (run_state acc_update st [reg 6; mkEntry 6 1 0 [4]]) (mkEntry 5 1 0 [1])) = OIgnored /\
+  (* full table [6; 5]: registering 7 evicts 5, whose retry is then rejected *)
+  let st2 := run_state acc_update st [reg 6; mkEntry 6 1 0 [4]; reg 7] in
+  map s_client (t_list (st_tab st2)) = [7; 6] /\
+  snd (acc_step st2 (mkEntry 5 2 1 [2])) = ORejected.
+Proof.
+  cbv zeta. split; [eexists; split; [vm_compute; reflexivity|vm_compute; discriminate]|].
+  split; [cbn [present_along]; repeat split; vm_compute; discriminate|].
+  repeat split; vm_compute; reflexivity.
+Qed.
+
+(* non-vacuity of at_most_once: the tagged trace of a stream with retries,
+   re-registration after eviction and a NoOP-session proposal *)
+Example c05_tags_witness :
+  let reg c := mkEntry c series_id_for_register 0 [] in
+  sm_calls_tagged acc_update 1 0
+    [reg 5; mkEntry 5 1 0 [1]; mkEntry 5 1 0 [1]; reg 6; mkEntry 5 1 0 [1]; reg 5; mkEntry 5 1 0 [1];
+     mkEntry 5 0 0 [8]; mkEntry 5 1 0 [1]]
+  = [(5, 1%nat, 1); (5, 2%nat, 1)].
+Proof. vm_compute. reflexivity. Qed.
+
+(* non-vacuity of save/load: a 3-session table in a non-sorted LRU order *)
+Example c05_save_load_witness :
+  let reg c := mkEntry c series_id_for_register 0 [] in
+  let t := st_tab (run_state acc_update (acc_init 3) [reg 7; reg 3; reg 9; mkEntry 3 1 0 [1]; mkEntry 7 4 2 [2]]) in
+  map s_client (t_list t) = [7; 3; 9] /\
+  match save t with
+  | Some (sv, t') => map s_client (snd sv) = [9; 3; 7] /\ t' = t /\ load sv = Some t
+  | None => False
+  end.
+Proof. vm_compute. repeat split; reflexivity. Qed.
